@@ -8,7 +8,7 @@ tools/build_repo.sh "$B" plain
 for g in tools/srcgen/*.sh; do VERIF_BUILD="$B" bash "$g"; done
 for g in tools/srcgen/gen_*.py; do [ -e "$g" ] && VERIF_BUILD="$B" VERIF_REPO=/repo python3 "$g"; done
 mkdir -p ocaml/gen evidence replays
-cd coq
+tools/mkproject.sh; cd coq
 coq_makefile -f _CoqProject -o Makefile.coq
 timeout 7200 make -f Makefile.coq -k -j16 2>&1 | grep -v '^COQC\|^COQDEP\|Closed under\|^Axioms:\|^ *$' | tail -40 || true
 echo "setup done"
